@@ -66,7 +66,7 @@ def eval_ns():
 def run(ctx):
     rng = ctx.rng("entry")
     texts = [t for t in pcommon.corpus()] + NONASCII + ["", "\n", "int only;"]
-    for _ in range(ctx.budget(60, 3000)):
+    for _ in range(ctx.budget(60, 1000)):
         texts.append(gen_prog.gen_program(rng, budget=5)[0])
         texts.append(gen_prog.gen_class_program(rng)[0])
     texts.append("void f1(auto p); void f2(int a, auto b); template <int N = 0> struct Z { int x : 1; };")
@@ -118,12 +118,12 @@ def run(ctx):
                     def __fspath__(self):
                         return self.v
                 entry = [e for e in os.scandir(tmp) if e.name == os.path.basename(p)][0]
+                try:
+                    want = parse_string(decoded, filename=p)
+                except CxxParseError:
+                    continue
                 for pathobj in (p, pathlib.Path(p), os.fsencode(p), _PL(p), _PL(os.fsencode(p)), entry):
                     nfile += 1
-                    try:
-                        want = parse_string(decoded, filename=p)
-                    except CxxParseError:
-                        continue
                     try:
                         got = parse_file(pathobj, explicit) if explicit else parse_file(pathobj)
                     except Exception as e:  # noqa
